@@ -339,7 +339,8 @@ def check(tier, seed):
     rep = Report(PID, tier, seed)
     ok, hits = kernel_phase(rep, 'NdeVerif.Proofs.C04', 'NdeVerif.C04', THEOREMS)
     ok2, _ = kernel_phase(rep, 'NdeVerif.Proofs.C04Grad', 'NdeVerif.C04', GRAD_THEOREMS, tag='C04grad')
-    ok = ok and ok2
+    ok3, _ = kernel_phase(rep, 'NdeVerif.Proofs.AnyHistory', 'NdeVerif.AnyHistory', ['manual_validation_changes_nothing'], tag='C04any')
+    ok = ok and ok2 and ok3
     if hits:
         print('forbidden tokens:', hits)
         rep.finish()
